@@ -319,4 +319,10 @@ type Recipe struct {
 	Mut   string `json:",omitempty"` // which mutation produced Bytes (histogram only)
 	File  string `json:",omitempty"` // table malformed stream (tmal-*): the bytes of the file, hex-encoded
 	Cfg   *CfgRecipe `json:",omitempty"` // distribution configuration cases (cfg, cfg-mal)
+	// rv-real rv-dv rv-sv rv-dm rv-sm (JSON) / rvt-dv rvt-dm rvt-sv rvt-sm (tables): decode into a RECYCLED receiver.  The bytes are
+	// Bytes / File when given, else what the writer makes of the object described by Els/Ents/N/R0/C0/Ops.  Recv describes the
+	// receiver (a recipe of the same base kind and Type; Kind "zero": a zero-value struct; nil: fresh), Recv2 the receiver of the
+	// second generation.  rv-fields: Mut = base kind, the struct declaration check.
+	Recv  *Recipe `json:",omitempty"`
+	Recv2 *Recipe `json:",omitempty"`
 }
